@@ -610,7 +610,7 @@ func TestC11(t *testing.T) {
 				case "chtimes":
 					op.Path = rapid.SampledFrom(append(shared, own...)).Draw(t, "p")
 				case "list":
-					op.Path = rapid.SampledFrom([]string{"/", "/s", "/s/d1"}).Draw(t, "dir")
+					op.Path = rapid.SampledFrom([]string{"/", "/s", "/s/d1", "/s/base", own[0]}).Draw(t, "dir") // a listing asked of a file is refused
 				case "getx":
 					op.Path = rapid.SampledFrom(own[:2]).Draw(t, "ownfile")
 				case "peek":
